@@ -1,3 +1,13 @@
+// PARKED (not run): one call of check_missed_writer_deadline / check_missed_reader_deadline on a participant
+// does not fit the solver budget. Measured on the cheapest variant (one writer, one instance, one call,
+// MpscSender::send / DcpsStatusCondition::add_communication_state / String::clone replaced by recorders):
+// symbolic execution 105 s, then the SAT encoding runs out of 12 GB (CaDiCaL and MiniSat); with the real
+// channel and status condition no answer in 900 s. Cause: the three nested entity lists (writers of a publisher,
+// instances of a writer, missed handles) live in heap buffers whose lengths CBMC cannot constant-fold, so
+// every loop runs one extra pass over unconstrained memory and the passes multiply around the listener-dispatch
+// body; cutting the loops after the real elements (unsound: unwinding assertions fail) gives 27 s / < 2 GB.
+// Iterator::next of slice/vec iterators cannot be stubbed (generic trait impls). The harness text is kept as
+// the specification of what should be decided (and of finding candidate KF-C30-1, see the report).
 // C30 — deadline-missed counts increase once per missed period, each increase is signalled.
 //
 // Pattern A: a real DcpsDomainParticipant with one topic, one publisher/subscriber and one directly
@@ -76,7 +86,7 @@ fn w_trigger(p: &DcpsDomainParticipant) -> bool {
     p.domain_participant.user_defined_publisher_list[0].data_writer_list[0].status_condition.get_trigger_value()
 }
 
-// @check props=C30 tier=quick
+// @parked props=C30 tier=quick
 // @desc writer side, two successive worker iterations: check_missed_writer_deadline(now1) then (now2), a <= now1 <= now2: after each call the number of counted misses k satisfies k*D <= now - a (each counted miss is a distinct elapsed full period) and a call without increase has now - a <= (k+1)*D (no elapsed period left uncounted); the instance's armed time advanced by exactly k*D; the status condition is triggered iff k > 0; with the writer listener mask enabled exactly k mails OfferedDeadlineMissed are queued carrying totals n0+1..n0+k, none otherwise
 // @bounds one publisher, one writer, one registered instance; two calls; deadline D in (0, 2^20 s], times in [0, 2^20 s] with any nanosecond; prior total_count n0 in 0..=1000
 // @assume the topic/publisher/writer were installed directly in the state create_topic / create_user_defined_publisher / create_data_writer + enable give them (support_part2.rs); listener sender = real mpsc channel whose receiver is polled by the harness; publisher and participant have no listener
@@ -84,10 +94,10 @@ fn w_trigger(p: &DcpsDomainParticipant) -> bool {
 // @enc DcpsDomainParticipant::check_missed_writer_deadline
 // @enc DcpsStatusCondition::add_communication_state
 // @enc MpscSender::send
-#[kani::proof]
-#[kani::unwind(4)]
-#[kani::stub(critical_section::acquire, super::support_cs::cs_acquire)]
-#[kani::stub(critical_section::release, super::support_cs::cs_release)]
+// #[kani::proof]
+// #[kani::unwind(4)]
+// #[kani::stub(critical_section::acquire, super::support_cs::cs_acquire)]
+// #[kani::stub(critical_section::release, super::support_cs::cs_release)]
 fn c30_writer_two_iterations() {
     let mut f = writer_fixture();
     let now1 = s2::any_time();
@@ -242,21 +252,21 @@ fn reader_two_iterations(known: bool) {
     core::mem::forget(f);
 }
 
-// @check props=C30 tier=quick known=KF-C30-1
+// @parked props=C30 tier=quick known=KF-C30-1
 // @desc reader side, two successive worker iterations restricted to the recorded trigger (first call counts a miss, second clock reading still inside the next period): expected to FAIL — check_missed_reader_deadline never re-arms the instance, so the second call counts the SAME period again
 // @bounds as c30_reader_two_iterations__rest
 // @assume trigger KF-C30-1: now1 - a > D && now2 < a + 2*D
 // @assume reader/subscriber/topic installed directly (support_part2.rs); a <= now1 <= now2; D > 0
 // @enc DcpsDomainParticipant::check_missed_reader_deadline
-#[kani::proof]
-#[kani::unwind(4)]
-#[kani::stub(critical_section::acquire, super::support_cs::cs_acquire)]
-#[kani::stub(critical_section::release, super::support_cs::cs_release)]
+// #[kani::proof]
+// #[kani::unwind(4)]
+// #[kani::stub(critical_section::acquire, super::support_cs::cs_acquire)]
+// #[kani::stub(critical_section::release, super::support_cs::cs_release)]
 fn c30_reader_two_iterations__known() {
     reader_two_iterations(true);
 }
 
-// @check props=C30 tier=quick
+// @parked props=C30 tier=quick
 // @desc reader side, two successive worker iterations: check_missed_reader_deadline(now1) then (now2), a <= now1 <= now2, outside the recorded trigger KF-C30-1: same oracle as the writer side (no over-count, no under-count, status condition triggered iff a miss was counted, one RequestedDeadlineMissed mail per counted miss when the reader mask enables it, none otherwise)
 // @bounds one subscriber, one reader, one ALIVE instance (ownership record present or released); two calls; deadline D in (0, 2^20 s], times in [0, 2^20 s] with any nanosecond; prior total_count n0 in 0..=1000
 // @assume NOT trigger KF-C30-1: !(now1 - a > D && now2 < a + 2*D)
@@ -265,10 +275,10 @@ fn c30_reader_two_iterations__known() {
 // @enc DcpsDomainParticipant::check_missed_reader_deadline
 // @enc DcpsStatusCondition::add_communication_state
 // @enc MpscSender::send
-#[kani::proof]
-#[kani::unwind(4)]
-#[kani::stub(critical_section::acquire, super::support_cs::cs_acquire)]
-#[kani::stub(critical_section::release, super::support_cs::cs_release)]
+// #[kani::proof]
+// #[kani::unwind(4)]
+// #[kani::stub(critical_section::acquire, super::support_cs::cs_acquire)]
+// #[kani::stub(critical_section::release, super::support_cs::cs_release)]
 fn c30_reader_two_iterations__rest() {
     reader_two_iterations(false);
 }
